@@ -1,4 +1,5 @@
 import Isotp.PyAgree.EvalLemmas
+import Isotp.PyAgree.Address
 /-!
   Agreement of the interpreted source of the small `Address` methods with the model (`Isotp/Address.lean`), for all inputs:
   the five `_is_for_me_*` predicates, `_get_tx_arbitration_id` / `_get_rx_arbitration_id`, the extension-byte getters,
@@ -45,6 +46,16 @@ theorem or_shl_eq_add (base hi lo : Nat) (hb : base % 65536 = 0) (hhi : hi ≤ 2
   rewrite [← a1, e, ← a2]
   rfl
 
+@[simp] theorem except_pure {ε α : Type} (a : α) : (pure a : Except ε α) = .ok a := rfl
+
+/- builtins / comparisons on the values that occur here (so that `simp` never unfolds `evalBuiltin` / `evalCmp`) -/
+@[simp] theorem evalBuiltin_len_bytes (b : Bytes) : evalBuiltin "len" [.bytes b] = some (.ok (pint b.length)) := rfl
+@[simp] theorem evalBuiltin_int_pint (i : Int) : evalBuiltin "int" [pint i] = some (.ok (pint i)) := rfl
+@[simp] theorem natIdx_pint (i : Int) :
+    natIdx (pint i) = if i < 0 then .error (.unsupported "negative index") else .ok i.toNat := rfl
+@[simp] theorem evalCmp_gt_pint (a b : Int) : evalCmp .gt (pint a) (pint b) = .ok (pbool (decide (b < a))) := rfl
+@[simp] theorem bytes_bne_pnone (b : Bytes) : (PV.bytes b != pnone) = true := by simp [pnone]
+
 /-! ### 1. the five `_is_for_me_*` predicates -/
 
 theorem is_for_me_normal_agrees (h : Half) (hm : h.mode = .n11 ∨ h.mode = .n29) (m : CanMsg) :
@@ -58,9 +69,120 @@ theorem is_for_me_extended_agrees (h : Half) (hm : h.mode = .e11 ∨ h.mode = .e
     retOf (msgEnv m (halfEnv h)) Src.Address_p_is_for_me_extended = .ok (pbool (h.isForMe m)) := by
   obtain ⟨id, ext, data, dlc, fd, brs⟩ := m
   rcases hm with hm | hm <;> cases ext <;> cases hr : h.rxid <;> cases hs : h.sa <;> cases data <;>
-  simp [retOf, runFn, Src.Address_p_is_for_me_extended, execBlock, execStmt, eval, evalArgs, evalBuiltin, natIdx, asInt,
-    Sc.isInt, Sc.intVal, PyVal.isInt, PyVal.intVal, msgEnv, halfEnv, hm, hr, hs,
+  simp [retOf, runFn, Src.Address_p_is_for_me_extended, execBlock, execStmt, eval, evalArgs, msgEnv, halfEnv, hm, hr, hs,
     Half.isForMe, Mode.is29, optPV, byteAt]
   all_goals grind
+
+theorem is_for_me_mixed_11bits_agrees (h : Half) (hm : h.mode = .m11) (m : CanMsg) :
+    retOf (msgEnv m (halfEnv h)) Src.Address_p_is_for_me_mixed_11bits = .ok (pbool (h.isForMe m)) := by
+  obtain ⟨id, ext, data, dlc, fd, brs⟩ := m
+  cases ext <;> cases hr : h.rxid <;> cases he : h.ae <;> cases data <;>
+  simp [retOf, runFn, Src.Address_p_is_for_me_mixed_11bits, execBlock, execStmt, eval, evalArgs, msgEnv, halfEnv, hm, hr, he,
+    Half.isForMe, Mode.is29, optPV, byteAt]
+  all_goals grind
+
+theorem is_for_me_mixed_29bits_agrees (h : Half) (hm : h.mode = .m29) (m : CanMsg) :
+    retOf (msgEnv m (halfEnv h)) Src.Address_p_is_for_me_mixed_29bits = .ok (pbool (h.isForMe m)) := by
+  obtain ⟨id, ext, data, dlc, fd, brs⟩ := m
+  cases ext <;> cases hs : h.sa <;> cases ht : h.ta <;> cases he : h.ae <;> cases data <;>
+  simp [retOf, runFn, Src.Address_p_is_for_me_mixed_29bits, execBlock, execStmt, eval, evalArgs, msgEnv, halfEnv, hm, hs, ht, he,
+    Int.natCast_nonneg, and_mask2816, and_ff, and_ff00_shr, Half.isForMe, Mode.is29, optPV, byteAt]
+  all_goals grind
+
+/-! ### 2. `_get_tx_arbitration_id` / `_get_rx_arbitration_id` -/
+
+/-- the five modes whose identifiers are given explicitly: the `assert self._txid is not None` of the source is the hypothesis -/
+theorem p_get_tx_arbitration_id_plain_agrees (h : Half) (t : Tat) (hm : h.mode ≠ .nf29 ∧ h.mode ≠ .m29)
+    (i : Nat) (hi : h.txid = some i) :
+    retOf (tatEnv t (halfEnv h)) Src.Address_p_get_tx_arbitration_id = .ok (pint (h.txId t)) := by
+  cases hmm : h.mode <;> simp [hmm] at hm <;>
+  simp [retOf, runFn, Src.Address_p_get_tx_arbitration_id, execBlock, execStmt, eval, evalArgs, halfEnv, tatEnv, hmm, hi,
+    constEnv, Src.consts, modePV, modeName, Half.txId, optPV]
+
+theorem p_get_rx_arbitration_id_plain_agrees (h : Half) (t : Tat) (hm : h.mode ≠ .nf29 ∧ h.mode ≠ .m29)
+    (i : Nat) (hi : h.rxid = some i) :
+    retOf (tatEnv t (halfEnv h)) Src.Address_p_get_rx_arbitration_id = .ok (pint (h.rxId t)) := by
+  cases hmm : h.mode <;> simp [hmm] at hm <;>
+  simp [retOf, runFn, Src.Address_p_get_rx_arbitration_id, execBlock, execStmt, eval, evalArgs, halfEnv, tatEnv, hmm, hi,
+    constEnv, Src.consts, modePV, modeName, Half.rxId, optPV]
+
+/-- the two modes whose identifiers are computed: both address bytes present (the two `assert`s of the source) and bytes
+    (`validate`), and the base selected by `address_type` a multiple of 65536 (the constructor masks it with `0x1FFF0000`). -/
+theorem p_get_tx_arbitration_id_fixed_agrees (h : Half) (t : Tat) (hm : h.mode = .nf29 ∨ h.mode = .m29)
+    (ta sa : Nat) (hta : h.ta = some ta) (hsa : h.sa = some sa) (bta : ta ≤ 255) (bsa : sa ≤ 255)
+    (hb : (if t = .physical then h.physId else h.funcId) % 65536 = 0) :
+    retOf (tatEnv t (halfEnv h)) Src.Address_p_get_tx_arbitration_id = .ok (pint (h.txId t)) := by
+  rcases hm with hm | hm <;> cases t <;> simp at hb <;>
+  simp [retOf, runFn, Src.Address_p_get_tx_arbitration_id, execBlock, execStmt, eval, evalArgs, halfEnv, tatEnv, hm, hta, hsa,
+    constEnv, Src.consts, modePV, modeName, tatPV, Half.txId, optPV, Int.natCast_nonneg, or_shl_eq_add _ _ _ hb bta bsa]
+
+theorem p_get_rx_arbitration_id_fixed_agrees (h : Half) (t : Tat) (hm : h.mode = .nf29 ∨ h.mode = .m29)
+    (ta sa : Nat) (hta : h.ta = some ta) (hsa : h.sa = some sa) (bta : ta ≤ 255) (bsa : sa ≤ 255)
+    (hb : (if t = .physical then h.physId else h.funcId) % 65536 = 0) :
+    retOf (tatEnv t (halfEnv h)) Src.Address_p_get_rx_arbitration_id = .ok (pint (h.rxId t)) := by
+  rcases hm with hm | hm <;> cases t <;> simp at hb <;>
+  simp [retOf, runFn, Src.Address_p_get_rx_arbitration_id, execBlock, execStmt, eval, evalArgs, halfEnv, tatEnv, hm, hta, hsa,
+    constEnv, Src.consts, modePV, modeName, tatPV, Half.rxId, optPV, Int.natCast_nonneg, or_shl_eq_add _ _ _ hb bsa bta]
+
+/-! ### 3. extension bytes, `_requires_extension_byte`, `is_partial_address` -/
+
+theorem get_tx_extension_byte_agrees (h : Half) :
+    retOf (halfEnv h) Src.Address_get_tx_extension_byte = .ok (optPV h.txExtByte) := by
+  cases hm : h.mode <;>
+  simp [retOf, runFn, Src.Address_get_tx_extension_byte, execBlock, execStmt, eval, evalArgs, halfEnv, hm, constEnv, Src.consts,
+    modePV, modeName, Half.txExtByte, optPV]
+
+theorem get_rx_extension_byte_agrees (h : Half) :
+    retOf (halfEnv h) Src.Address_get_rx_extension_byte = .ok (optPV h.rxExtByte) := by
+  cases hm : h.mode <;>
+  simp [retOf, runFn, Src.Address_get_rx_extension_byte, execBlock, execStmt, eval, evalArgs, halfEnv, hm, constEnv, Src.consts,
+    modePV, modeName, Half.rxExtByte, optPV]
+
+theorem p_requires_extension_byte_agrees (h : Half) :
+    retOf (halfEnv h) Src.Address_p_requires_extension_byte = .ok (pbool h.mode.hasPrefix) := by
+  cases hm : h.mode <;>
+  simp [retOf, runFn, Src.Address_p_requires_extension_byte, execBlock, execStmt, eval, evalArgs, halfEnv, hm, constEnv, Src.consts,
+    modePV, modeName, Mode.hasPrefix]
+
+/-- Python's `or` returns one of its operands; both are `bool`s here, so the value is the Boolean disjunction -/
+theorem is_partial_address_agrees (h : Half) :
+    retOf (halfEnv h) Src.Address_is_partial_address = .ok (pbool (h.txOnly || h.rxOnly)) := by
+  cases ht : h.txOnly <;> cases hr : h.rxOnly <;>
+  simp [retOf, runFn, Src.Address_is_partial_address, execBlock, execStmt, eval, halfEnv, ht, hr]
+
+/-! ### 4. the public getters, which read the identifiers cached by the constructor -/
+
+theorem get_tx_arbitration_id_agrees (h : Half) (t : Tat) :
+    retOf (tatEnv t (cachedEnv h (halfEnv h))) Src.Address_get_tx_arbitration_id = .ok (pint (h.txId t)) := by
+  cases t <;>
+  simp [retOf, runFn, Src.Address_get_tx_arbitration_id, execBlock, execStmt, eval, halfEnv, tatEnv, cachedEnv,
+    constEnv, Src.consts, tatPV]
+
+theorem get_rx_arbitration_id_agrees (h : Half) (t : Tat) :
+    retOf (tatEnv t (cachedEnv h (halfEnv h))) Src.Address_get_rx_arbitration_id = .ok (pint (h.rxId t)) := by
+  cases t <;>
+  simp [retOf, runFn, Src.Address_get_rx_arbitration_id, execBlock, execStmt, eval, halfEnv, tatEnv, cachedEnv,
+    constEnv, Src.consts, tatPV]
+
+/-! ### summary: the predicate installed by the constructor -/
+
+/-- the method `Address.__init__` binds to `self.is_for_me` (same case split as the source) -/
+def selectedPredicate : Mode → PBlock
+  | .n11 | .n29 => Src.Address_p_is_for_me_normal
+  | .e11 | .e29 => Src.Address_p_is_for_me_extended
+  | .nf29 => Src.Address_p_is_for_me_normal_fixed
+  | .m11 => Src.Address_p_is_for_me_mixed_11bits
+  | .m29 => Src.Address_p_is_for_me_mixed_29bits
+
+theorem isForMe_agrees (h : Half) (m : CanMsg) :
+    retOf (msgEnv m (halfEnv h)) (selectedPredicate h.mode) = .ok (pbool (h.isForMe m)) := by
+  cases hm : h.mode <;> simp only [selectedPredicate]
+  · exact is_for_me_normal_agrees h (.inl hm) m
+  · exact is_for_me_normal_agrees h (.inr hm) m
+  · exact is_for_me_normal_fixed_agrees h hm m
+  · exact is_for_me_extended_agrees h (.inl hm) m
+  · exact is_for_me_extended_agrees h (.inr hm) m
+  · exact is_for_me_mixed_11bits_agrees h hm m
+  · exact is_for_me_mixed_29bits_agrees h hm m
 
 end Isotp.PyAgree
